@@ -629,7 +629,13 @@ type getter interface {
 func (w *World) checkReads(what string, g getter, m *model.KV) {
 	for _, p := range w.Probes {
 		kb := buf(p)
+		// first without filling the caches (the lookup path compaction iterators use), then normally:
+		// same answer
+		v0, err0 := g.Get(kb, &opt.ReadOptions{DontFillCache: true})
 		v, err := g.Get(kb, nil)
+		if (err0 == nil) != (err == nil) || (err0 != nil && err0.Error() != err.Error()) || string(v0) != string(v) {
+			w.violate("%s: Get(%q) with DontFillCache = %q, %v; without = %q, %v", what, p, v0, err0, v, err)
+		}
 		if string(kb) != p || !spareIntact(kb) {
 			w.violate("%s: Get modified its key buffer (or the memory behind it)", what)
 		}
